@@ -356,9 +356,9 @@ PROPS = {
         'assumptions': ['priority keys of the Inputs map are distinct (Go map)'],
     },
     'C17': {
-        'lean_targets': ['Cqos.Props.C17', 'Cqos.Facts.C17', 'Cqos.Facts.GluePrioV1', 'Cqos.Facts.CtorsPrio'],
+        'lean_targets': ['Cqos.Props.C17', 'Cqos.Props.C17v', 'Cqos.Facts.C17', 'Cqos.Facts.GluePrioV1', 'Cqos.Facts.CtorsPrio'],
         'facts': True,
-        'theorems': ['Cqos.C17.c17_remove', 'Cqos.C17.c17_remove_unreg', 'Cqos.C17.c17_unregistered_not_read', 'Cqos.C17.c17_add',
+        'theorems': ['Cqos.C17.c17_add_then_delivers', 'Cqos.C17.c17_remove', 'Cqos.C17.c17_remove_unreg', 'Cqos.C17.c17_unregistered_not_read', 'Cqos.C17.c17_add',
                      'Cqos.C17.c17_actual_survives', 'Cqos.C01.c01_v1', 'Cqos.C15.c15_args_v1', 'Cqos.C07.c07_v1_graceful_only_then',
                      'Cqos.Facts.c17_commands_unbuffered', 'Cqos.Facts.gluePrioV1', 'Cqos.Facts.ctorsPrio'],
         'runs': [{'cmd': 'stepper', 'args': ['-family', 'dynamic']},
@@ -369,7 +369,7 @@ PROPS = {
                        'the unbuffered command channel is received from): after remove the priority is unregistered and a channel no '
                        'registered priority refers to is never received from until it is added again; after add the priority refers to '
                        'the new channel, not drained; actual counts survive removal; capacity, exactly-once/FIFO, the argument contract '
-                       'and the termination invariant are proved across any sequence of add/replace/remove/re-add'),
+                       'and the termination invariant are proved across any sequence of add/replace/remove/re-add; delivery after an addition (c17_add_then_delivers): with nothing in flight the round that follows the loop-top case delivers the head element of the added channel under the added priority by the discipline\'s own steps - hypotheses about the re-divided shares (they add up to H, the added priority has a share: finding F1 otherwise) and about the channel being used by no other priority'),
         'level_note': 'trusted: correspondence by differential stepping (exact equality of actual/tactic/strategic/priorities/drained/output after each op); unbuffered inputs only open and empty; New/main/loop glue by black-box runs and facts',
         'rule': 'stepper family dynamic: add / replace / reconnect-after-close / remove / re-add interleaved with traffic and releases',
         'trusted_base': [],
